@@ -15,7 +15,7 @@
                     with (i) other restores still run, (ii) nothing diverted, (iii) restartable) *)
 From Coq Require Import String List NArith ZArith Ascii Bool Arith.
 From SV Require Import Lib.Bytes Model.FwLife Model.FwLifeSpec Proofs.FwLife_lemmas Proofs.FwLife_general
-  Proofs.FwLife_gen_owner Proofs.FwLife_gen_pf.
+  Proofs.FwLife_gen_owner Proofs.FwLife_gen_pf Proofs.FwLife_gen_pf_faults.
 From SV Require Import Model.FwLog Proofs.FwLog_lemmas.
 Import ListNotations.
 
@@ -227,7 +227,8 @@ Example c04_owner_hyps_satisfiable :
   option_map is_mark_delete (nth_cmd 22 (r_events (session cfg_nat_user (full_cut cfg_nat_user) (fault_at 22) ex_state))) = Some false.
 Proof. vm_compute. repeat split; discriminate. Qed.
 
-(* What is NOT proved in general: pf (c04_pf_identity_full further down).  The iptables/nft model has
+(* pf has its own general theorems further down (c04_pf_identity, c04_pf_every_exit, c04_pf_all_exits: every
+   script of failing commands).  The iptables/nft model has
    no other gap: the hypotheses above (well-formed kernel, body rules in own chains, tproxy's chain
    order, the F41 command excluded) are necessary for the statement as it stands. *)
 
@@ -348,7 +349,8 @@ Print Assumptions c04_pf_freebsd_asfound_refuted.
    Darwin's -E/-X tokens, and the anchors are as before; the main ruleset and `set skip on lo` are as
    before on FreeBSD, and elsewhere whenever lo is not skipped.  (With `set skip on lo` OpenBSD/Darwin
    REPLACE the main ruleset by 'match/pass on lo' and never restore it — pf.py:274-279, 353-359 — see
-   c04_pf_identity_full_refuted.)  Not covered in general: exits with a failing pfctl/ioctl command. *)
+   c04_pf_identity_full_refuted.)  Exits with failing pfctl/kldload commands: c04_pf_every_exit, c04_pf_all_exits
+   and the theorems after them (every script); a failing ioctl is an uncaught OSError outside the fault model. *)
 Theorem c04_pf_identity : forall os c cut s0,
   c_method c = MPf os -> c_repaired c = true -> c_udp c = false -> pf_start_ok os c s0 ->
   let sf := r_final (session c cut no_faults s0) in
@@ -414,6 +416,267 @@ Proof.
   rewrite forallb_forall in H. apply H. apply in_seq. split; [apply Nat.le_0_l | apply Nat.lt_succ_r; exact Hc].
 Qed.
 Print Assumptions c04_pf_identity_partial.
+
+(* ================================================================== *)
+(* pf under EVERY environment script (Proofs/FwLife_gen_pf_faults.v).   *)
+(* `faults : nat -> bool` makes ANY set of external commands of the      *)
+(* session (pfctl / kldload; set-up and tear-down; both families) return *)
+(* non-zero without effect — as the k-th failing command does for the    *)
+(* iptables/nft methods, but for whole sets of indices.  FreeBSD, OpenBSD *)
+(* and Darwin (PfSense = FreeBSD with another ioctl layout), repaired     *)
+(* code path (F17 fixed), every plan, every cut, every start state with   *)
+(* pf_start_ok (see c04_pf_identity).                                      *)
+(* Model/FwLife.v pf_restore follows the REPAIRED pf.disable under c_repaired (F150, flush half: the flush is
+   wrapped in try/finally, `pfctl -d` / `pfctl -X` run even when it failed); c_repaired = false is the code as found.
+     td_faulted faults r   some command with index in [r_fin_at r, r_ncmds r), i.e. one issued by the
+                           finally block, is scripted to fail
+     flush_failed r        the trace of r contains a failed `pfctl -a <anchor> -F all`
+     disable_failed r      the trace of r contains a failed `pfctl -d` or `pfctl -X <token>`
+     f43_hits os c cut faults s0   OpenBSD/Darwin, `set skip on lo` in force, the session reaches set-up
+                           (cut after GO, pf loaded, a family active) and its first two commands
+                           (`pfctl -s Interfaces -i lo -v`, `pfctl -f /dev/stdin`) are not scripted to fail
+     own_del c L           the anchor list L without the (at most two) anchors named for c's ports     *)
+
+(* EVERY exit — any script, any cut: iptables/nft untouched; module state as before; anchors of anybody else
+   literally unchanged and in order; the main ruleset and `set skip` are as before EXCEPT exactly when
+   f43_hits (finding F43, now characterised as an equivalence: it needs the first two set-up commands to
+   succeed and nothing else — a later failing command does not undo it); a pf that was enabled before is
+   never disabled (FreeBSD/OpenBSD), a reference sshuttle does not hold is never released (Darwin: the
+   outstanding tokens before the session stay a prefix); both families' restores run. *)
+Theorem c04_pf_every_exit : forall os c cut faults s0,
+  c_method c = MPf os -> c_repaired c = true -> c_udp c = false -> pf_start_ok os c s0 ->
+  let r := session c cut faults s0 in
+  let sf := r_final r in
+  sf = with_pf s0 (k_pf sf) /\
+  pf_loaded (k_pf sf) = pf_loaded (k_pf s0) /\
+  calls_ok (pf_calls (k_pf sf)) = true /\
+  (pf_main (k_pf sf), pf_skip_lo (k_pf sf)) =
+    (if f43_hits os c cut faults s0 then (pf_main (k_pf s0) ++ [skiptext os], false)
+     else (pf_main (k_pf s0), pf_skip_lo (k_pf s0))) /\
+  own_del c (pf_anchors (k_pf sf)) = pf_anchors (k_pf s0) /\
+  (match os with
+   | Darwin => pf_on (k_pf sf) = pf_on (k_pf s0) /\ exists l, pf_refs (k_pf sf) = pf_refs (k_pf s0) ++ l
+   | _ => pf_refs (k_pf sf) = pf_refs (k_pf s0) /\ (pf_enabled (k_pf s0) = true -> pf_on (k_pf sf) = pf_on (k_pf s0))
+   end) /\
+  (c_nlines c <= cut -> forall f, fc_on (fcfg c f) = true -> has_mark (MRestore f) (r_events r) = true).
+Proof. exact pf_every_exit. Qed.
+Print Assumptions c04_pf_every_exit.
+
+(* ALL EXITS but a failing `pfctl -d` / `pfctl -X <token>` — normal end, channel closed at any line, ANY set of
+   failing set-up commands in either family, ANY failing flush of the finally block: module, enable state
+   (`pfctl -e/-d` bookkeeping) and Darwin tokens are exactly those before the session; nobody else's anchor is
+   touched and the session's own are gone unless their own flush failed (that content is removed by the next
+   session: c04_pf_restartable); the main ruleset too unless f43_hits. *)
+Theorem c04_pf_all_exits : forall os c cut faults s0,
+  c_method c = MPf os -> c_repaired c = true -> c_udp c = false -> pf_start_ok os c s0 ->
+  disable_failed (session c cut faults s0) = false ->
+  let sf := r_final (session c cut faults s0) in
+  sf = with_pf s0 (k_pf sf) /\
+  pf_loaded (k_pf sf) = pf_loaded (k_pf s0) /\ pf_on (k_pf sf) = pf_on (k_pf s0) /\
+  pf_refs (k_pf sf) = pf_refs (k_pf s0) /\
+  own_del c (pf_anchors (k_pf sf)) = pf_anchors (k_pf s0) /\
+  (flush_failed (session c cut faults s0) = false -> pf_anchors (k_pf sf) = pf_anchors (k_pf s0)) /\
+  (pf_main (k_pf sf), pf_skip_lo (k_pf sf)) =
+    (if f43_hits os c cut faults s0 then (pf_main (k_pf s0) ++ [skiptext os], false)
+     else (pf_main (k_pf s0), pf_skip_lo (k_pf s0))).
+Proof. exact pf_all_exits. Qed.
+Print Assumptions c04_pf_all_exits.
+
+(* the same as one boolean: the hypothesis is a boolean predicate on the script's run *)
+Theorem c04_pf_all_exits_but_calls : forall os c cut faults s0,
+  c_method c = MPf os -> c_repaired c = true -> c_udp c = false -> pf_start_ok os c s0 ->
+  disable_failed (session c cut faults s0) || flush_failed (session c cut faults s0) || f43_hits os c cut faults s0 = false ->
+  pf_same_but_calls (k_pf (r_final (session c cut faults s0))) (k_pf s0) = true.
+Proof. exact pf_all_exits_bool. Qed.
+Print Assumptions c04_pf_all_exits_but_calls.
+
+(* stated on the script's indices: no command of the finally block is scripted to fail *)
+Theorem c04_pf_all_exits_td : forall os c cut faults s0,
+  c_method c = MPf os -> c_repaired c = true -> c_udp c = false -> pf_start_ok os c s0 ->
+  td_faulted faults (session c cut faults s0) || f43_hits os c cut faults s0 = false ->
+  pf_same_but_calls (k_pf (r_final (session c cut faults s0))) (k_pf s0) = true.
+Proof. exact pf_all_exits_td_bool. Qed.
+Print Assumptions c04_pf_all_exits_td.
+
+(* in the shape of sess_ok's second clause: ONE failing command k that is not issued by the finally block *)
+Corollary c04_pf_setup_fault_identity : forall os c cut k s0,
+  c_method c = MPf os -> c_repaired c = true -> c_udp c = false -> pf_start_ok os c s0 ->
+  (let r := session c cut (fault_at k) s0 in k < r_fin_at r \/ r_ncmds r <= k) ->
+  f43_hits os c cut (fault_at k) s0 = false ->
+  pf_same_but_calls (k_pf (r_final (session c cut (fault_at k) s0))) (k_pf s0) = true.
+Proof. exact pf_setup_fault_identity. Qed.
+Print Assumptions c04_pf_setup_fault_identity.
+
+(* tear-down commands may fail, but no `pfctl -a <anchor> -F all` does: nothing the session loaded remains *)
+Theorem c04_pf_flush_ok_clean : forall os c cut faults s0,
+  c_method c = MPf os -> c_repaired c = true -> c_udp c = false -> pf_start_ok os c s0 ->
+  flush_failed (session c cut faults s0) = false ->
+  pf_anchors (k_pf (r_final (session c cut faults s0))) = pf_anchors (k_pf s0).
+Proof. exact pf_flush_ok_clean. Qed.
+Print Assumptions c04_pf_flush_ok_clean.
+
+(* clause (iii) for pf, after ANY exit (any script): a later fault-free session on the same ports reaches STARTED
+   and ends with every anchor as before the FIRST session — the anchor content a failing flush left behind is
+   repaired — but it leaves the enable state and the Darwin references exactly as it found them: a pf left
+   enabled / a reference left behind by a failing `pfctl -d` / `pfctl -X` stays for good (finding F150).
+   fresh2: the next two Darwin tokens are not outstanding (as in pf_start_ok, now for the left-over state). *)
+Theorem c04_pf_restartable : forall os c cut faults cut2 s0,
+  c_method c = MPf os -> c_repaired c = true -> c_udp c = false -> pf_start_ok os c s0 ->
+  pf_loaded (k_pf s0) = true -> c_nlines c <= cut2 ->
+  let s1 := r_final (session c cut faults s0) in
+  (os = Darwin -> fresh2 (k_pf s1)) ->
+  let r2 := session c cut2 no_faults s1 in
+  has_mark MStarted (r_events r2) = true /\
+  r_final r2 = with_pf s0 (k_pf (r_final r2)) /\
+  pf_loaded (k_pf (r_final r2)) = true /\
+  pf_anchors (k_pf (r_final r2)) = pf_anchors (k_pf s0) /\
+  pf_on (k_pf (r_final r2)) = pf_on (k_pf s1) /\ pf_refs (k_pf (r_final r2)) = pf_refs (k_pf s1).
+Proof. exact pf_restartable. Qed.
+Print Assumptions c04_pf_restartable.
+
+(* non-vacuity: the sample plans (one family / both families) and start states (pf disabled, pf enabled,
+   `set skip on lo`) satisfy pf_start_ok on every flavour; a script failing THREE commands — the first of the IPv4 half of set-up and two
+   that are never issued — satisfies the boolean hypothesis, really ends the session with a Fatal during the
+   IPv4 half of set-up after the IPv6 half had enabled pf, and on the skip-lo state a script failing command 0
+   keeps F43 from happening. *)
+Example c04_pf_fault_hyps_satisfiable :
+  (forall os, pf_start_ok os (cfg_pf os true) ex_pf_state /\ pf_start_ok os (cfg_pf2 os) ex_pf_state /\
+              pf_start_ok os (cfg_pf os true) ex_pf_on_state /\ pf_start_ok os (cfg_pf2 os) ex_pf_on_state /\
+              pf_start_ok os (cfg_pf os true) ex_pf_skip_off_state /\ pf_start_ok os (cfg_pf2 os) ex_pf_skip_off_state) /\
+  forallb (fun os =>
+    let fl := faults_in [4; 40; 41] in
+    let r := session (cfg_pf2 os) 7 fl ex_pf_state in
+    negb (td_faulted fl r || f43_hits os (cfg_pf2 os) 7 fl ex_pf_state) &&
+    match r_outcome r with ExitFatal => true | _ => false end &&
+    has_mark (MSetup V4) (r_events r) && negb (has_mark MStarted (r_events r)) &&
+    Nat.eqb (r_fin_at r) 5) [FreeBSD; OpenBSD; Darwin] = true /\
+  forallb (fun os => negb (f43_hits os (cfg_pf2 os) 7 (fault_at 0) ex_pf_skip_off_state) &&
+                     f43_hits os (cfg_pf2 os) 7 (fault_at 2) ex_pf_skip_off_state) [OpenBSD; Darwin] = true /\
+  (* a script failing a set-up command of the IPv4 half (5) AND both flushes of the finally block (6, 8) satisfies
+     the hypothesis of c04_pf_all_exits *)
+  forallb (fun os =>
+    let fl := faults_in [5; 6; 8] in
+    let r := session (cfg_pf2 os) 7 fl ex_pf_state in
+    negb (disable_failed r) && flush_failed r && td_faulted fl r) [FreeBSD; OpenBSD; Darwin] = true.
+Proof. split; [exact pf_samples_start_ok | split; [|split]; vm_compute; reflexivity]. Qed.
+
+(* ... so for the samples every script that spares the finally block is covered, without bound *)
+Corollary c04_pf_samples_all_exits : forall os cut faults,
+  td_faulted faults (session (cfg_pf2 os) cut faults ex_pf_state) = false ->
+  pf_same_but_calls (k_pf (r_final (session (cfg_pf2 os) cut faults ex_pf_state))) (k_pf ex_pf_state) = true.
+Proof.
+  intros os cut faults H. apply (c04_pf_all_exits_td os); try reflexivity.
+  - exact (proj1 (proj2 (pf_samples_start_ok os))).
+  - rewrite H. unfold f43_hits. cbn [ex_pf_state k_pf pf_foreign pf_skip_lo]. rewrite !andb_false_r. reflexivity.
+Qed.
+Print Assumptions c04_pf_samples_all_exits.
+
+(* ---- the exceptions, each with a witness ---- *)
+(* Without the hypothesis on the script the statement is FALSE. *)
+Definition c04_pf_all_exits_unrestricted : Prop :=
+  forall os c cut faults s0,
+    c_method c = MPf os -> c_repaired c = true -> c_udp c = false -> pf_start_ok os c s0 ->
+    f43_hits os c cut faults s0 = false ->
+    pf_same_but_calls (k_pf (r_final (session c cut faults s0))) (k_pf s0) = true.
+
+Theorem c04_pf_all_exits_unrestricted_refuted : ~ c04_pf_all_exits_unrestricted.
+Proof.
+  intro H. specialize (H FreeBSD (cfg_pf FreeBSD true) 7 (fault_at 5) ex_pf_state eq_refl eq_refl eq_refl
+                         (proj1 (pf_samples_start_ok FreeBSD)) eq_refl).
+  vm_compute in H. discriminate.
+Qed.
+Print Assumptions c04_pf_all_exits_unrestricted_refuted.
+
+(* (1) F150, flush half (FIXED by the try/finally of pending_fixes/F150.diff): a failing tear-down
+   `pfctl -a sshuttle-1230 -F all`.  As found (c_repaired = false) Generic.disable stopped there (pf.py:71-76):
+   `pfctl -d` was skipped, pf stayed enabled although it was disabled before the session, and the anchor, still
+   loaded, kept diverting. *)
+Theorem c04_pf_flush_fault_asfound_refuted :
+  let r := session (cfg_pf FreeBSD false) 7 (fault_at 4) ex_pf_state in
+  nth_cmd 4 (r_events r) = Some (Pf (PFlushAnchor (pf_anchor V4 P1230))) /\ r_fin_at r = 4 /\ r_ncmds r = 5 /\
+  flush_failed r = true /\ disable_failed r = false /\
+  pf_on (k_pf ex_pf_state) = false /\ pf_on (k_pf (r_final r)) = true /\
+  map fst (pf_anchors (k_pf (r_final r))) = [bs "com.apple"; pf_anchor V4 P1230].
+Proof. vm_compute. repeat split. Qed.
+Print Assumptions c04_pf_flush_fault_asfound_refuted.
+
+(* the repaired code on the same input: `pfctl -d` runs (6 commands), pf is disabled again; only the failed
+   command's own effect is missing — the anchor keeps the session's rules, inert, as with nft's failing
+   `delete table` — and the next session on the port removes it *)
+Theorem c04_pf_flush_fault_repaired :
+  let r := session (cfg_pf FreeBSD true) 7 (fault_at 4) ex_pf_state in
+  let r2 := session (cfg_pf FreeBSD true) 7 no_faults (r_final r) in
+  nth_cmd 4 (r_events r) = Some (Pf (PFlushAnchor (pf_anchor V4 P1230))) /\ nth_cmd 5 (r_events r) = Some (Pf PDisable) /\
+  r_ncmds r = 6 /\ flush_failed r = true /\ pf_on (k_pf (r_final r)) = false /\
+  map fst (pf_anchors (k_pf (r_final r))) = [bs "com.apple"; pf_anchor V4 P1230] /\
+  pf_same_but_calls (k_pf (r_final r2)) (k_pf ex_pf_state) = true.
+Proof. vm_compute. repeat split. Qed.
+Print Assumptions c04_pf_flush_fault_repaired.
+
+(* (2) F150 (the part that stays a known finding): a failing tear-down `pfctl -d` (OpenBSD; the same on FreeBSD): every rule is gone, but pf stays enabled,
+   and no later session disables it (it finds pf enabled, so it does not count it as started by sshuttle). *)
+Theorem c04_pf_disable_fault_refuted :
+  let r := session (cfg_pf OpenBSD true) 7 (fault_at 5) ex_pf_state in
+  let r2 := session (cfg_pf OpenBSD true) 7 no_faults (r_final r) in
+  nth_cmd 5 (r_events r) = Some (Pf PDisable) /\ r_fin_at r = 4 /\ flush_failed r = false /\
+  pf_anchors (k_pf (r_final r)) = pf_anchors (k_pf ex_pf_state) /\
+  pf_on (k_pf ex_pf_state) = false /\ pf_on (k_pf (r_final r)) = true /\
+  has_mark MStarted (r_events r2) = true /\ pf_on (k_pf (r_final r2)) = true.
+Proof. vm_compute. repeat split. Qed.
+Print Assumptions c04_pf_disable_fault_refuted.
+
+(* (3) F150 on Darwin: a failing `pfctl -X <token>` leaves the session's reference on pf behind (the token was
+   popped from _pf_context['Xtoken'] before pfctl ran, pf.py:350-351); later sessions take and release their own
+   token only.  A failing flush of the IPv6 anchor no longer costs a reference (repaired): both are released. *)
+Theorem c04_pf_release_fault_refuted :
+  let r := session (cfg_pf Darwin true) 7 (fault_at 5) ex_pf_state in
+  let r2 := session (cfg_pf Darwin true) 7 no_faults (r_final r) in
+  let r' := session (cfg_pf2 Darwin) 7 (fault_at 8) ex_pf_state in
+  let ra := session (mkCfg (MPf Darwin) (c_v6 (cfg_pf2 Darwin)) (c_v4 (cfg_pf2 Darwin)) None false false 6 [true]) 7 (fault_at 8) ex_pf_state in
+  nth_cmd 5 (r_events r) = Some (Pf (PReleaseRef (bs "1"))) /\ disable_failed r = true /\
+  pf_refs (k_pf ex_pf_state) = [] /\ pf_refs (k_pf (r_final r)) = [bs "1"] /\ pf_enabled (k_pf (r_final r)) = true /\
+  pf_anchors (k_pf (r_final r)) = pf_anchors (k_pf ex_pf_state) /\
+  pf_refs (k_pf (r_final r2)) = [bs "1"] /\
+  nth_cmd 8 (r_events r') = Some (Pf (PFlushAnchor (pf_anchor V6 P1230))) /\ pf_refs (k_pf (r_final r')) = [] /\
+  pf_refs (k_pf (r_final ra)) = [bs "1"].
+Proof. vm_compute. repeat split. Qed.
+Print Assumptions c04_pf_release_fault_refuted.
+
+(* (4) F43 does not need the session to succeed: with `set skip on lo` the main ruleset is replaced as soon as
+   the second command has run; a Fatal at the third command (`pfctl -s all`) ends the session with nothing else
+   changed and the administrator's ruleset gone.  With the second command failing nothing is replaced. *)
+Theorem c04_pf_f43_setup_fault_refuted :
+  let r := session (cfg_pf Darwin true) 7 (fault_at 2) ex_pf_skip_off_state in
+  let r1 := session (cfg_pf Darwin true) 7 (fault_at 1) ex_pf_skip_off_state in
+  td_faulted (fault_at 2) r = false /\ has_mark MStarted (r_events r) = false /\
+  pf_main (k_pf ex_pf_skip_off_state) = [bs "block all"] /\
+  pf_main (k_pf (r_final r)) = [bs "block all"; bs "pass on lo" ++ ["010"%char]] /\ pf_skip_lo (k_pf (r_final r)) = false /\
+  pf_same_but_calls (k_pf (r_final r1)) (k_pf ex_pf_skip_off_state) = true.
+Proof. vm_compute. repeat split. Qed.
+Print Assumptions c04_pf_f43_setup_fault_refuted.
+
+(* two families: the second family's restore retries `pfctl -d` by accident (the counter was not decremented),
+   so ONE failing `pfctl -d` is survived there — every single fault of this plan outside the two flushes *)
+Theorem c04_pf_two_families_single_fault : forall k cut, k <> 7 -> k <> 9 -> k < 16 -> cut <= 7 ->
+  pf_same_but_calls (k_pf (r_final (session (cfg_pf2 FreeBSD) cut (fault_at k) ex_pf_state))) (k_pf ex_pf_state) = true.
+Proof.
+  intros k cut H7 H9 Hk Hc.
+  assert (H : forallb (fun k => forallb (fun cut => Nat.eqb k 7 || Nat.eqb k 9 ||
+              pf_same_but_calls (k_pf (r_final (session (cfg_pf2 FreeBSD) cut (fault_at k) ex_pf_state))) (k_pf ex_pf_state))
+              (seq 0 8)) (seq 0 16) = true) by (vm_compute; reflexivity).
+  rewrite forallb_forall in H. assert (Ik : In k (seq 0 16)) by (apply in_seq; split; [apply Nat.le_0_l | exact Hk]).
+  specialize (H k Ik). rewrite forallb_forall in H.
+  assert (Ic : In cut (seq 0 8)) by (apply in_seq; split; [apply Nat.le_0_l | apply Nat.lt_succ_r; exact Hc]).
+  specialize (H cut Ic). apply orb_true_iff in H as [H|H]; [|exact H].
+  apply orb_true_iff in H as [H|H]; apply Nat.eqb_eq in H; contradiction.
+Qed.
+Print Assumptions c04_pf_two_families_single_fault.
+
+(* fresh2 (hypothesis of c04_pf_restartable on Darwin) holds of the left-over state of witness (3) *)
+Example c04_pf_restart_hyps_satisfiable :
+  fresh2 (k_pf (r_final (session (cfg_pf Darwin true) 7 (fault_at 5) ex_pf_state))) /\
+  fresh2 (k_pf (r_final (session (cfg_pf2 Darwin) 7 (fault_at 9) ex_pf_state))).
+Proof. split; split; vm_compute; intro H; repeat (destruct H as [H|H]; try discriminate); try contradiction. Qed.
 
 (* ================================================================== *)
 (* Logging is total (Model/FwLog.v, Proofs/FwLog_lemmas.v).              *)
